@@ -577,7 +577,7 @@ pub fn run(ctx: &Ctx, started: Instant) -> i32 {
         run_list_bed("C11", rel_window_cases(), &mut st, |x| json!({"rel_window": x}), run_rel_window);
         stats.merge(st);
     }
-    let per_shard = ctx.tier.pick(2_000u32, 40_000);
+    let per_shard = ctx.tier.pick(8_000u32, 100_000);
     let rnd = par_shards(WORKERS, |shard| {
         let mut st = Stats::default();
         run_proptest_bed("C11", ctx.sub_seed("rand", shard), per_shard, &case_strategy(Role::ALL[shard % 4]), &mut st, |c| json!({"case": c}), run_case);
